@@ -181,3 +181,51 @@ type ArgSite struct {
 	Call    ssa.CallInstruction
 	Dynamic bool
 }
+
+// ReachableFrom returns the repository functions reachable from the given
+// roots through static calls, closures created on the way, go/defer targets
+// and interface calls resolved by class hierarchy among repository methods.
+// skip, if set, prunes call edges.
+func (p *Prog) ReachableFrom(roots []*ssa.Function, skip func(c ssa.CallInstruction) bool) map[*ssa.Function]bool {
+	seen := map[*ssa.Function]bool{}
+	var work []*ssa.Function
+	push := func(f *ssa.Function) {
+		if f != nil && f.Blocks != nil && p.InRepo(f) && !seen[f] {
+			seen[f] = true
+			work = append(work, f)
+		}
+	}
+	for _, r := range roots {
+		push(r)
+	}
+	for len(work) > 0 {
+		fn := work[len(work)-1]
+		work = work[:len(work)-1]
+		Instrs(fn, func(in ssa.Instruction) {
+			switch x := in.(type) {
+			case ssa.CallInstruction:
+				if skip != nil && skip(x) {
+					return
+				}
+				if f := StaticCallee(x); f != nil {
+					if t := p.boundOf[f]; t != nil {
+						f = t
+					}
+					push(f)
+				} else if x.Common().IsInvoke() {
+					for _, impl := range p.Implementations(x) {
+						push(impl)
+					}
+				}
+			case *ssa.MakeClosure:
+				if f, ok := x.Fn.(*ssa.Function); ok {
+					if t := p.boundOf[f]; t != nil {
+						f = t
+					}
+					push(f)
+				}
+			}
+		})
+	}
+	return seen
+}
